@@ -67,6 +67,18 @@ def gen_world(t, prop):
     big = t.chance(1, 10)
     spec = worlds.gen_syn(t, hostile=hostile, omen=omen, max_pts=600 if prop == "C02" else 1500, menu=menu, big=big,
                           max_structs=3 if big else 4, max_vars=2 if big else 4)
+    if prop == "C04" and t.chance(1, 25):
+        # one digit group with exactly N values (block sizes of a writer sit at round numbers)
+        dvars = [v for v in spec["vars"] if v[0] == "D" and v[1:].isdigit() and int(v[1:]) >= 4] or None
+        if dvars is None:
+            spec["vars"]["D5"] = [["0.5", ["00000"]]]
+            spec["base"].append(["D5", spec["base"][-1][1]])
+            dvars = ["D5"]
+        v = dvars[t.draw(len(dvars))]
+        N = t.choice([256, 1000, 1024, 4096, 4096, 8192])
+        w = int(v[1:])
+        spec["vars"][v][-1][1] = [("%0" + str(w) + "d") % (7 * i + 3) for i in range(N)]
+        spec["exact_group"] = N
     # PRINCE base structures: single-variable structures
     spec["spell"] = t.draw(4) if t.chance(1, 4) else 0        # same probability written as 0.5 / 0.50 / 5.0e-01
     names = [v for v in spec["vars"] if v[0] != "C"]
@@ -99,6 +111,9 @@ def run_one(tape, tier, prop):
     nlang = sum(lang.values())
     if nlang > 4000:
         res.rejected = "language_too_large"
+        return res
+    if spec.get("exact_group") and ref.guess_count(cap=300000) > 300000:
+        res.rejected = "too_many_guesses"
         return res
     romen = RefOmen(os.path.join(rdir, "Omen"))
 
